@@ -641,3 +641,143 @@ func c17FreshRaw(p *Prog, fn *ssa.Function, dst ssa.Value) bool {
 	_, isMk := sv.(*ssa.MakeSlice)
 	return isMk
 }
+
+// ------------------------------------------------------------------------------ R17n-p (third round)
+
+func c17Round3(c *Ctx) {
+	p := c.P
+	c.Rule("R17n", "the two members of the upload tarball end at the same file offset: zipdir.bin is [dirLoc, X) and contents.zip is [0, X)", 1)
+	c.Rule("R17o", "the ZIP64 end record is consulted only when the classic end record is saturated, as standard readers do", 1)
+	c.Rule("R17p", "reproducing the original directory does not change the Directory it is asked about", 1)
+
+	// ---- R17n
+	if fn := p.Func("lib/zipslicer.ZipToTarSize"); fn == nil {
+		c.Undecided("R17n", "zipslicer.ZipToTarSize", "-", "function not found")
+	} else {
+		c.Analysed(p.FName(fn))
+		var cdLen, zipLen ssa.Value
+		for _, ci := range p.callsIn(fn, "lib/zipslicer.tarAddStream") {
+			args := ci.Common().Args
+			if len(args) < 4 {
+				continue
+			}
+			name := args[2]
+			if u, ok := stripConv(name).(*ssa.UnOp); ok {
+				if g, ok := u.X.(*ssa.Global); ok {
+					switch g.Name() {
+					case "TarMemberCD":
+						cdLen = args[3]
+					case "TarMemberZip":
+						zipLen = args[3]
+					}
+				}
+			}
+			if s, ok := constString(name); ok {
+				switch s {
+				case "zipdir.bin":
+					cdLen = args[3]
+				case "contents.zip":
+					zipLen = args[3]
+				}
+			}
+		}
+		if cdLen == nil || zipLen == nil {
+			c.Undecided("R17n", "tar members written by ZipToTarSize", p.Pos(fn.Pos()), "the two tarAddStream calls were not recognised")
+		} else {
+			bo, ok := stripConv(cdLen).(*ssa.BinOp)
+			same := ok && bo.Op == token.SUB && stripConv(bo.X) == stripConv(zipLen)
+			c.Check(same, "R17n", "zipdir.bin length is contents.zip length minus the directory offset", p.Pos(fn.Pos()), "X - dirLoc and X",
+				"the directory member does not end where the zip member ends: every consumer (ReadZipTar, DigestXapTar) places the directory at len(contents.zip) - len(zipdir.bin), so a signature trailer that is carried in one member only shifts the directory by its length - an already signed XAP is digested and patched at the wrong offsets")
+		}
+	}
+	// ---- R17o
+	if fn := p.Func("lib/zipslicer.FindDirectory"); fn == nil {
+		c.Undecided("R17o", "zipslicer.FindDirectory", "-", "function not found")
+	} else {
+		c.Analysed(p.FName(fn))
+		// reads of the ZIP64 end record: ReadAt whose offset comes from the locator
+		var z64 []ssa.Instruction
+		for _, b := range fn.Blocks {
+			for _, in := range b.Instrs {
+				ci, ok := in.(ssa.CallInstruction)
+				if !ok || ci.Common().Method == nil || ci.Common().Method.Name() != "ReadAt" {
+					continue
+				}
+				args := ci.Common().Args
+				if dependsOn(args[len(args)-1], func(x ssa.Value) bool {
+					tn, f, _ := p.fieldLoad(x)
+					return strings.HasSuffix(tn, "zip64Loc") && f == "Offset"
+				}) {
+					z64 = append(z64, in)
+				}
+			}
+		}
+		if len(z64) == 0 {
+			c.Undecided("R17o", "ZIP64 end record read", p.Pos(fn.Pos()), "no ReadAt at the locator's offset found")
+		}
+		// saturation tests of the classic end record
+		del := map[edge]bool{}
+		nSat := 0
+		for _, b := range fn.Blocks {
+			ifi, ok := b.Instrs[len(b.Instrs)-1].(*ssa.If)
+			if !ok {
+				continue
+			}
+			bo, ok := ifi.Cond.(*ssa.BinOp)
+			if !ok || bo.Op != token.EQL {
+				continue
+			}
+			tn, f, _ := p.fieldLoad(stripConv(bo.X))
+			k, isK := constInt(bo.Y)
+			if !strings.HasSuffix(tn, "zipEndRecord") || !isK {
+				continue
+			}
+			if (f == "TotalCDCount" && k == 0xffff) || (f == "CDCount" && k == 0xffff) || (f == "CDSize" && k == 0xffffffff) || (f == "CDOffset" && k == 0xffffffff) {
+				nSat++
+				del[edge{b.Index, 0}] = true
+			}
+		}
+		for i, in := range z64 {
+			seen := reach(fn, []*ssa.BasicBlock{fn.Blocks[0]}, del, nil)
+			c.Check(nSat > 0 && !seen[in.Block().Index], "R17o", fmt.Sprintf("ZIP64 end record read#%d only behind a saturated field", i+1), p.Pos(in.Pos()), fmt.Sprintf("%d saturation tests", nSat),
+				"the ZIP64 end record is read although no field of the classic end record is 0xFFFF / 0xFFFFFFFF: archive/zip, Python and Info-ZIP take the classic record at its word in that case, so bytes that merely look like a ZIP64 locator (the tail of a file comment) make relic read a different central directory than every other reader")
+		}
+	}
+	// ---- R17p
+	if fn := p.Func("lib/zipslicer.(*Directory).GetOriginalDirectory"); fn == nil {
+		c.Undecided("R17p", "(*Directory).GetOriginalDirectory", "-", "function not found")
+	} else {
+		bad := ""
+		n := 0
+		for f := range p.moduleReachOpt([]*ssa.Function{fn}, false) {
+			n++
+			c.Analysed(p.FName(f))
+			for _, b := range f.Blocks {
+				for _, in := range b.Instrs {
+					st, ok := in.(*ssa.Store)
+					if !ok {
+						continue
+					}
+					// a store into a field of a Directory (or of a record inside it) reached from a parameter
+					v := st.Addr
+					inDir := false
+					for i := 0; i < 8; i++ {
+						fa, ok := v.(*ssa.FieldAddr)
+						if !ok {
+							break
+						}
+						if tn, _, _ := p.fieldAddr(fa); strings.HasSuffix(tn, "lib/zipslicer.Directory") {
+							inDir = true
+						}
+						v = fa.X
+					}
+					if _, isParam := v.(*ssa.Parameter); inDir && isParam {
+						bad = fmt.Sprintf("%s at %s", p.FName(f), p.Pos(st.Pos()))
+					}
+				}
+			}
+		}
+		c.Check(bad == "", "R17p", "GetOriginalDirectory leaves the Directory as it found it", p.Pos(fn.Pos()), fmt.Sprintf("%d functions on the path, no store into a Directory", n),
+			"a field of the Directory is overwritten on the way ("+bad+"): the trimmed offsets stick, so a second call (a second APK signer, a later WriteDirectory) starts from records that were already shifted and reproduces a different end-of-directory")
+	}
+}
